@@ -101,6 +101,12 @@ func frameJobs(tier string) []*Job {
 			add(mk(n, -1200, 4, 1, 1, 0, 0, 0, deliv, []int{1, 65535, 65536, 65537}[(bi+deliv)%4], []int{0, 2, 4, 3}[(bi+deliv)%4], 0))
 		}
 	}
+	// a 256 KiB block holding incompressible bytes with an exact 64 KiB period (the distance an
+	// offset cannot express), through Write and ReadFrom
+	add(mk(131072+40, -65536, 5, 1, 1, 0, 0, 0, 0, 0, 2, 0))
+	if thorough {
+		add(mk(131072+40, -65536, 5, 0, 1, 0, 0, 0, 4, 0, 0, 0))
+	}
 	// growing tiny inputs, all bytes symbolic
 	N := 8
 	if thorough {
@@ -118,6 +124,7 @@ func frameBounds(tier string) []string {
 		"option matrix: 4 block sizes x block checksum x content checksum x content size (symbolic 64-bit value) x level {Fast, Level1, Level9} x legacy, each on a tiny input (0..6 symbolic bytes) with a rotating delivery / read-back shape",
 		"every delivery shape {one Write; Write|Write; Write|Flush|Write; Flush,Write,Flush,Flush; ReadFrom with 4 source fragmentation modes; byte-by-byte} x read-back {Read >= block size; Read 3-byte buffers; WriteTo; mixed 1/2/7/block+1; block-1} x source fragmentation {full; 1 byte; data+EOF; zero-length reads}",
 		"compressible inputs of 40 and 70 bytes (thorough: 24..300) built from a symbolic period of 1..3 bytes: real compressed blocks, with splits",
+		"131112 incompressible bytes with an exact 64 KiB period in one 256 KiB block (redundancy only at distance 65536)",
 		"block-boundary inputs of 65535 / 65536 / 65537 / 131073 bytes with 64 KiB blocks (concrete compressible filler, last two bytes symbolic), split at 1 / 65535 / 65536 / 65537",
 		"all input bytes symbolic otherwise; concurrency = 1; amd64 portable decoder",
 	}
